@@ -82,6 +82,14 @@ class Arr:
         return lo, hi
 
     def __getitem__(self, k):
+        if isinstance(k, (int, SymInt)) and not isinstance(k, bool):
+            if self.length is None:
+                raise Unsupported("component index on a row")
+            L, e = self.length, self._elem
+            kk = tz(k)
+            oblige(z3.And(-L <= kk, kk < L), "row index within bounds")
+            idx = z3.If(kk < 0, L + kk, kk)
+            return Arr(None, lambda i: e(idx), self.kind)
         lo, hi = self._bounds(k, "slice")
         return View(self, lo, hi)
 
